@@ -1,4 +1,5 @@
 import ShkModel.Model.Runner
+import ShkModel.Model.Life
 import ShkModel.Driver.Util
 namespace Shk.Drv.C07
 open Shk.Runner
@@ -16,6 +17,23 @@ def handle : List String → String
       let s := run p es
       s!"phase={repr s.phase} alive={s.alive} hup={s.hup} killed={s.killed} asked={s.asked p} late={s.lateSignal}"
     | none => "bad-op"
+  -- `life <okInit bits> <okFinal bits> <bodyErr> <sig: none|int|term|hup>` → cleanup runs per phase, result
+  | ["life", oi, ofi, be, sg] =>
+    let bi := oi.toList.map (· == '1')
+    let bf := ofi.toList.map (· == '1')
+    let sig : Option (Option Shk.Life.Sig) := match sg with
+      | "none" => some none | "int" => some (some .int) | "term" => some (some .term) | "hup" => some (some .hup)
+      | _ => none
+    match sig with
+    | none => "bad-op"
+    | some g =>
+      if bi.length != bf.length then "bad-op" else
+      let sc : Shk.Life.Scenario := ⟨(bi.zip bf).map fun p => ⟨p.1, p.2⟩, be == "1", g⟩
+      let r := Shk.Life.runConduct sc
+      let ni := (r.1.filter fun e => match e with | .initCleanup _ => true | _ => false).length
+      let nf := (r.1.filter fun e => match e with | .finalCleanup _ => true | _ => false).length
+      let nb := (r.1.filter fun e => match e with | .body => true | _ => false).length
+      s!"init={ni} final={nf} body={nb} fail={r.2}"
   | _ => "bad-op"
 
 end Shk.Drv.C07
